@@ -40,8 +40,8 @@ TARGETS = {
     "c15": ("asan", ["harness_main", "budget", "simfs"], [], True, "-ldl"),
     "c04": ("asan", ["harness_main", "budget", "simfs"], [], True, "-ldl"),
     "c07": ("asan", ["harness_main", "budget", "simfs"], [], True, "-ldl"),
-    "c20": ("tsan", ["harness_main"], ["sched", "tsan_glue"], False, "-ldl -lpthread"),
-    "c09": ("tsan", ["harness_main"], ["sched", "tsan_glue"], True, "-ldl -lpthread"),
+    "c20": ("tsan", ["harness_main"], ["sched", "tsan_glue"], False, "-ldl -lpthread -Wl,--wrap=__cxa_guard_acquire -Wl,--wrap=__cxa_guard_release -Wl,--wrap=__cxa_guard_abort"),
+    "c09": ("tsan", ["harness_main"], ["sched", "tsan_glue"], True, "-ldl -lpthread -Wl,--wrap=__cxa_guard_acquire -Wl,--wrap=__cxa_guard_release -Wl,--wrap=__cxa_guard_abort"),
 }
 
 
